@@ -16,6 +16,9 @@ pub struct Src {
     /// extra text appended to the content (the generator input names a variant here)
     #[serde(default)]
     pub tag: String,
+    /// gcc -MG style: a missing (soft) include is still reported as a dependency
+    #[serde(default)]
+    pub mg: bool,
 }
 
 #[derive(Clone, Debug, Serialize, Deserialize, PartialEq)]
@@ -99,11 +102,27 @@ impl Project {
         self.steps.iter().enumerate().filter(|(_, s)| !s.removed)
     }
     pub fn producer(&self, f: &str) -> Option<usize> {
+        // fast path for the big-shape workloads: bo/oK is output K of step 0
+        if let Some(k) = f.strip_prefix("bo/o").and_then(|k| k.parse::<usize>().ok()) {
+            if let Some(s) = self.steps.first() {
+                if !s.removed && s.outs.get(k).map(|o| o == f).unwrap_or(false) {
+                    return Some(0);
+                }
+            }
+        }
         self.steps
             .iter()
             .position(|s| !s.removed && s.outs.iter().any(|o| o == f))
     }
     pub fn src(&self, f: &str) -> Option<usize> {
+        // fast path for the big-shape workloads: bh/hK sits at a fixed offset
+        if let Some(k) = f.strip_prefix("bh/h").and_then(|k| k.parse::<usize>().ok()) {
+            for off in [1usize, 3] {
+                if self.srcs.get(k + off).map(|s| s.name == f).unwrap_or(false) {
+                    return Some(k + off);
+                }
+            }
+        }
         self.srcs.iter().position(|s| s.name == f)
     }
     pub fn step_by_id(&self, id: usize) -> Option<usize> {
@@ -175,14 +194,16 @@ impl Project {
         if s.depmode == 0 {
             return Ok(out);
         }
+        let mut seen: std::collections::HashSet<String> = std::collections::HashSet::new();
         fn dfs(
             p: &Project,
             i: usize,
             out: &mut Vec<String>,
+            seen: &mut std::collections::HashSet<String>,
             exists: &dyn Fn(&str) -> bool,
         ) -> Result<(), String> {
             for n in &p.srcs[i].incs {
-                if out.contains(n) {
+                if seen.contains(n) {
                     continue;
                 }
                 if !exists(n) {
@@ -192,18 +213,47 @@ impl Project {
                     return Err(n.clone());
                 }
                 out.push(n.clone());
+                seen.insert(n.clone());
                 if let Some(j) = p.src(n) {
-                    dfs(p, j, out, exists)?;
+                    dfs(p, j, out, seen, exists)?;
                 }
             }
             Ok(())
         }
         for f in s.exp.iter().chain(s.imp.iter()) {
             if let Some(i) = self.src(f) {
-                dfs(self, i, &mut out, exists)?;
+                dfs(self, i, &mut out, &mut seen, exists)?;
             }
         }
         Ok(out)
+    }
+    /// soft includes that are missing right now but still reported (-MG style sources)
+    pub fn reported_missing(&self, s: &Step, exists: &dyn Fn(&str) -> bool) -> Vec<String> {
+        let mut out = Vec::new();
+        if s.depmode == 0 {
+            return out;
+        }
+        let mut seen: Vec<usize> = Vec::new();
+        let mut st: Vec<usize> = s.exp.iter().chain(&s.imp).filter_map(|f| self.src(f)).collect();
+        while let Some(i) = st.pop() {
+            if seen.contains(&i) {
+                continue;
+            }
+            seen.push(i);
+            for n in &self.srcs[i].incs {
+                if exists(n) {
+                    if let Some(j) = self.src(n) {
+                        st.push(j);
+                    }
+                } else if self.srcs[i].soft && self.srcs[i].mg && !out.contains(n) {
+                    out.push(n.clone());
+                }
+            }
+        }
+        out
+    }
+    pub fn has_generator(&self) -> bool {
+        self.steps.iter().any(|s| s.generator && !s.removed)
     }
     pub fn src_content(&self, i: usize) -> String {
         format!(
@@ -391,7 +441,14 @@ impl Project {
         let root = Rng::new(self.spell);
         let mut r = root.sub(1, 0);
         let plain = self.spell == 0;
-        let ninc = if plain || r.pct(70) { 0 } else { 1 + r.below(2) };
+        let has_gen = self.has_generator();
+        let ninc = if has_gen {
+            2
+        } else if plain || r.pct(70) {
+            0
+        } else {
+            1 + r.below(2)
+        };
         let inc_kind: Vec<bool> = (0..ninc).map(|_| r.pct(50)).collect(); // true = subninja
         let mut texts: Vec<String> = vec![String::new(); ninc + 1];
         let shared_rule = plain || r.pct(60);
@@ -451,7 +508,7 @@ impl Project {
         for k in 0..ninc {
             let stmt = if inc_kind[k] { "subninja" } else { "include" };
             let name = format!("{}.inc{}", self.manifest, k);
-            let name = if r.pct(30) { format!("./{}", name) } else { name };
+            let name = if !plain && r.pct(30) { format!("./{}", name) } else { name };
             texts[0].push_str(&format!("{} {}\n", stmt, name));
         }
         if let Some(b) = &self.builddir {
@@ -463,7 +520,7 @@ impl Project {
                 continue;
             }
             let mut sr = root.sub(2, s.id as u64);
-            let dest = if ninc == 0 { 0 } else { sr.below(ninc + 1) };
+            let dest = if ninc == 0 || s.generator { 0 } else { sr.below(ninc + 1) };
             let cont = |sr: &mut Rng| -> &'static str {
                 if !plain && sr.pct(8) {
                     " $\n    "
